@@ -206,10 +206,13 @@ def evaluate(case) -> Verdict:
 TEXTS = ["a", "b", " ", "\n", "x", "-", ".", "é", "\r\n", "\n\n", "  \n  ", "日本", "\t", " ", "\x0c", "\x85"]
 
 
+PARTIAL_NAMES = ["p", "q.liquid", "card.v2.html"]  # (a reported template name has to be the whole name, dots and all)
+
+
 def profile(in_partial: str = "") -> gg.Profile:
     return gg.Profile(
         nodes=list(gg.STD_NODES) + gg.EXTRA_NODES,
-        partials=["p", "q"] if not in_partial else [],
+        partials=PARTIAL_NAMES if not in_partial else [],
         text_alphabet=TEXTS,
         ternary=True,
         logical_not=True,
@@ -227,7 +230,7 @@ def profile(in_partial: str = "") -> gg.Profile:
 def analysis_cases(draw):
     r = core.rng(draw)
     main = gg.Gen(r, profile()).template()
-    partials = {"p": gg.Gen(r, profile("render")).template(), "q": gg.Gen(r, profile("render")).template()}
+    partials = {name: gg.Gen(r, profile("render")).template() for name in PARTIAL_NAMES}
     return {"kind": "analysis", "main": main, "partials": partials}
 
 
